@@ -1970,6 +1970,180 @@ def run_histories(tier, rng):
     return cov, violations
 
 
+# ------------------------------------------------------------------------------------------------
+# Concurrent stream (fix-K): the outcome of parse + compile of a statement is a function of the statement (text,
+# parameters, tables), whatever other threads of the process parse or compile at the same moment (the DB-API module
+# declares threadsafety = 2).  N threads run Connection.parse + compile over DIFFERENT valid and invalid statements at the
+# same time; every outcome must be the one the same call gives alone: same accept / reject, a ParseError /
+# CompilationError and never another exception, a location within ITS OWN text.
+
+def observe_pc(case):
+    """parse + compile (no execution) -> a small comparable outcome:
+    ['ok', summary] | ['parse' | 'compile' | 'fold-error', class, message, [pos, endpos] | None, problems]"""
+    e_ = env()
+    text = case['text']
+    try:
+        node = e_['conn'].parse(text)
+    except Exception as e:  # noqa: BLE001
+        cls, problems = check_exception(e, text)
+        pi = getattr(e, 'parseinfo', None)
+        try:
+            if pi is not None and pi.tokenizer.text != text:
+                problems.append('span-of-other-text')
+        except Exception:  # noqa: BLE001
+            problems.append('parseinfo-unreadable')
+        return ['parse', cls, str(e)[:200], [pi.pos, pi.endpos] if pi is not None else None, problems]
+    params = case.get('params')
+    if case.get('container') == 'swap' and params is not None:
+        pv = py_params(params)
+        pv = {str(i): v for i, v in enumerate(pv)} if isinstance(pv, list) else list(pv.values())
+    else:
+        pv = py_params(params)
+    try:
+        cq = bq_compiler.compile(e_['conn'], node, pv)
+    except Exception as e:  # noqa: BLE001
+        cls, problems = check_exception(e, text)
+        if is_fold_error(e):
+            return ['fold-error', cls, '', None, []]
+        pi = getattr(e, 'parseinfo', None)
+        return ['compile', cls, str(e)[:200], [pi.pos, pi.endpos] if pi is not None else None, problems]
+    try:
+        return ['ok', summarize(cq)]
+    except Exception as e:  # noqa: BLE001
+        return ['ok', ['summary-failed', type(e).__name__]]
+
+
+def concurrent_pc_round(lists, reps=1, switch=1e-6):
+    """One barrier-synchronised burst per repetition: thread k runs observe_pc over lists[k], one statement after the other.
+    -> out[r][k] = [outcome ...].  The interpreter's switch interval is lowered for the burst and restored."""
+    import sys
+    import threading
+    n = len(lists)
+    out = [[None] * n for _ in range(reps)]
+    barrier = threading.Barrier(n)
+
+    def work(k):
+        for r in range(reps):
+            try:
+                barrier.wait(timeout=120)
+            except threading.BrokenBarrierError:
+                out[r][k] = [['broken-barrier']] * len(lists[k])
+                return
+            res = []
+            for c in lists[k]:
+                try:
+                    res.append(observe_pc(c))
+                except Exception as e:  # noqa: BLE001
+                    res.append(['harness', type(e).__name__, str(e)[:100]])
+            out[r][k] = res
+    old = sys.getswitchinterval()
+    sys.setswitchinterval(switch)
+    try:
+        ths = [threading.Thread(target=work, args=(k,), daemon=True) for k in range(n)]
+        for t in ths:
+            t.start()
+        for t in ths:
+            t.join(600)
+    finally:
+        sys.setswitchinterval(old)
+    return out
+
+
+def concurrent_difference(got, alone):
+    """None, or (category, text) of how the outcome under concurrency departs from the outcome of the same call alone."""
+    if got is None:
+        return 'no-outcome', 'the call did not return'
+    if norm(got) == norm(alone):
+        return None
+    if got[0] != 'ok' and any(p.startswith('class:') for p in got[4]):
+        cls = [p for p in got[4] if p.startswith('class:')][0][6:]
+        return 'escape:' + cls, f'raised {cls} ({got[2]}) instead of a ProgrammingError'
+    if got[0] != 'ok' and got[4] and got[4] != (alone[4] if alone[0] != 'ok' else []):
+        return 'location:' + got[4][0], f'the {got[1]} carries an invalid location ({", ".join(got[4])}; span {got[3]})'
+    if alone[0] == 'ok' and got[0] != 'ok':
+        return 'rejected-well-formed', f'rejected ({got[0]}: {got[1]}: {got[2]}) although the same call alone is accepted'
+    if alone[0] != 'ok' and got[0] == 'ok':
+        return 'accepted-ill-formed', f'accepted although the same call alone is rejected ({alone[1]}: {alone[2]})'
+    if alone[0] == 'ok':
+        return 'another-compilation', 'compiled to another query than the same call alone'
+    return 'another-rejection', f'rejected with {got[:4]} but the same call alone gives {alone[:4]}'
+
+
+def run_concurrent(tier, rng, cases, recs):
+    """-> (coverage, violations)"""
+    import time as _time
+    t0 = _time.time()
+    nthreads, per_thread = 4, 4
+    rounds = 8 if tier == 'quick' else 120
+    groups = {'accepted': [], 'parse-rejected': [], 'compile-rejected': []}
+    for c, r in zip(cases, recs):
+        if len(c['text']) > 220 or c['stream'] not in ('valid', 'mutant', 'corrupt', 'overload'):
+            continue
+        g = {'ok': 'accepted', 'execute': 'accepted', 'execute-eval': 'accepted', 'parse': 'parse-rejected',
+             'compile': 'compile-rejected'}.get(r['phase'])
+        if g and not r['problems']:
+            groups[g].append((c, r))
+    alone, violations, seen = {}, [], set()
+    hist = {'alone': {}, 'differences': {}, 'text_length': {}}
+    calls = wrong = 0
+
+    def key(c):
+        return json.dumps([c['text'], c.get('params'), c.get('container')], sort_keys=True, default=str)
+    for rd in range(rounds):
+        picked, keys = [], set()
+        while len(picked) < nthreads * per_thread:
+            gname = rng.choice(['accepted', 'accepted', 'parse-rejected', 'compile-rejected'])
+            if not groups[gname]:
+                gname = 'accepted'
+            c, r = rng.choice(groups[gname])
+            if key(c) in keys:
+                continue
+            keys.add(key(c))
+            picked.append((c, r))
+        for c, r in picked:
+            k = key(c)
+            if k not in alone:
+                # the call alone, in this process, before any thread exists; it has to agree with the worker process' observation
+                alone[k] = observe_pc(c)
+                again = observe_pc(c)
+                wphase = {'execute': 'ok', 'execute-eval': 'ok'}.get(r['phase'], r['phase'])
+                if (norm(again) != norm(alone[k]) or alone[k][0] != wphase) and len(seen) < 3:
+                    sig = 'serial-repeat:' + c['text']
+                    seen.add(sig)
+                    violations.append(core.Violation(
+                        'outcome-not-a-function-of-statement', f'{c["text"]!r}: two calls alone give {alone[k][:3]} / {again[:3]}; '
+                        f'a fresh process gave phase {r["phase"]}', {'concurrent': True, 'lists': [[c]], 'reps': 2}, signature=sig))
+                hist['alone'][alone[k][0]] = hist['alone'].get(alone[k][0], 0) + 1
+                lb = f'{len(c["text"]) // 50 * 50}+'
+                hist['text_length'][lb] = hist['text_length'].get(lb, 0) + 1
+        lists = [[c for c, _ in picked[k::nthreads]] for k in range(nthreads)]
+        got = concurrent_pc_round(lists)[0]
+        for lst, res in zip(lists, got):
+            for i, c in enumerate(lst):
+                calls += 1
+                g = res[i] if res is not None and i < len(res) else None
+                d = concurrent_difference(g, alone[key(c)])
+                if d is None:
+                    continue
+                wrong += 1
+                hist['differences'][d[0]] = hist['differences'].get(d[0], 0) + 1
+                sig = 'concurrent:' + d[0]
+                if sig in seen or len(seen) >= 3:
+                    continue
+                seen.add(sig)
+                violations.append(core.Violation(
+                    'concurrent-' + d[0].split(':')[0], f'parse + compile of {c["text"]!r} params={c.get("params")} while {nthreads - 1} other '
+                    f'threads parse and compile other statements: {d[1]}',
+                    {'concurrent': True, 'lists': lists, 'statement': c, 'got': g, 'alone': alone[key(c)], 'reps': 12}, signature=sig))
+    cov = {'concurrent_stream': {
+        'rounds': rounds, 'threads': nthreads, 'statements_per_thread_and_round': per_thread, 'calls': calls,
+        'distinct_statements': len(alone), 'outcomes_differing_from_the_call_alone': wrong, 'switch_interval': 1e-6,
+        'pool': {k: len(v) for k, v in groups.items()}, 'histograms': hist, 'seconds': round(_time.time() - t0, 1),
+        'samples': [json.loads(k)[0] for k in list(alone)[:4]]}}
+    core.log(f'[C05] concurrent stream: {calls} calls in {cov["concurrent_stream"]["seconds"]}s')
+    return cov, violations
+
+
 def build_cases(tier, rng):
     e = env()
     g = Gen(rng, e['reg'])
@@ -2147,12 +2321,27 @@ def run(tier, rng, use_model=True):
     cov['evaluations'] += ecov['e2e_statements']
     cov['traces_validated_against_impl'] += ecov['e2e_compared']
     violations.extend(eviol)
+    ccov, cviol = run_concurrent(tier, rng, cases, recs)
+    cov.update(ccov)
+    cov['evaluations'] += ccov['concurrent_stream']['calls']
+    violations.extend(cviol)
     return {'coverage': cov, 'violations': violations}
 
 
 def replay(rec):
     if 'history' in rec:
         return judge_history(rec['history'], run_history(rec['history'])) is None
+    if rec.get('concurrent'):
+        # the schedule is the interpreter's: the burst is repeated; every repetition has to agree with the calls alone
+        lists = rec['lists']
+        alone = [[observe_pc(c) for c in lst] for lst in lists]
+        if sum(len(x) for x in lists) == 1:
+            return all(norm(observe_pc(lists[0][0])) == norm(alone[0][0]) for _ in range(rec.get('reps', 2)))
+        for got in concurrent_pc_round(lists, reps=rec.get('reps', 12)):
+            for gl, al in zip(got, alone):
+                if gl is None or any(concurrent_difference(g, a) is not None for g, a in zip(gl, al)):
+                    return False
+        return True
     case = rec['case']
     if rec.get('e2e'):
         r = observe_e2e(case)
